@@ -1,4 +1,5 @@
 import Vita.C11.Model
+import Vita.C11.Big
 /-!
   C12 (b) — the load functions as *state transformers on the target*.
 
@@ -75,5 +76,49 @@ def IDeT.loadInto (io : FloatIO F) (t : IDeT F) (s : Str) : R (IDeT F) :=
   | some (age, s1) =>
     let r := IDeT.loadImplInto io t s1
     if r.ok then ⟨{ r.target with age := age, sig := ⟨0, 0⟩ }, true, r.rest⟩ else r
+
+/-! ### i_mep -/
+structure IMepT (F : Type) where
+  age : Nat
+  cols : Nat
+  genes : List (Gene F)
+  best : Nat × Nat
+  sig : Hash
+
+/-- what `i_mep::load_impl` parses into its locals `genome` and `best` -/
+def IMep.parseImpl (io : FloatIO F) (tab : SymTab) : P (Nat × List (Gene F) × (Nat × Nat)) := do
+  let rows ← readU U32
+  let cols ← readU U32
+  let genes ← readN (Gene.load io tab) (rows * cols)
+  let best ← readBest rows
+  pure (cols, genes, best)
+
+/-- i_mep::load_impl : `best_ = best; genome_ = genome;` after the last extraction -/
+def IMepT.loadImplInto (io : FloatIO F) (tab : SymTab) : IMepT F → Str → R (IMepT F) :=
+  parseThenCommit (IMep.parseImpl io tab) (fun t v => { t with cols := v.1, genes := v.2.1, best := v.2.2 })
+
+def IMepT.loadInto (io : FloatIO F) (tab : SymTab) (t : IMepT F) (s : Str) : R (IMepT F) :=
+  match readU U32 s with
+  | none => ⟨t, false, s⟩
+  | some (age, s1) =>
+    let r := IMepT.loadImplInto io tab t s1
+    if r.ok then ⟨{ r.target with age := age, sig := ⟨0, 0⟩ }, true, r.rest⟩ else r
+
+/-! ### team : members parsed into a local vector of fresh individuals; `individuals_ = v;
+    signature_.clear();` last -/
+structure TeamT (F : Type) where
+  members : List (IMep F)
+  sig : Hash
+
+def TeamT.loadInto (io : FloatIO F) (tab : SymTab) : TeamT F → Str → R (TeamT F) :=
+  parseThenCommit (Team.load io tab) (fun _ v => ⟨v, ⟨0, 0⟩⟩)
+
+/-! ### population (repaired load): layers are built in the local `p`; `*this = std::move(p)` last -/
+def Pop.loadInto (io : FloatIO F) (tab : SymTab) : List (Layer F) → Str → R (List (Layer F)) :=
+  parseThenCommit (Pop.load io tab) (fun _ p => p)
+
+/-! ### summary : `*this = tmp_summary` last -/
+def Summary.loadInto (io : FloatIO F) (tab : SymTab) : Summary F → Str → R (Summary F) :=
+  parseThenCommit (Summary.load io tab) (fun _ s => s)
 
 end Vita.C12
